@@ -127,7 +127,8 @@ def check_property(pid, tier, seed):
                     failed_ids.add(desc)
                 elif "unwinding assertion" in desc:
                     unwind_fail.append(desc)
-                elif "not currently supported by Kani" in desc or "is not supported" in desc:
+                elif ("not currently supported by Kani" in desc or "is not supported" in desc
+                      or "Kani does not support" in desc):
                     # a construct the tool cannot model (inline asm, ...): undecided, never an alarm
                     unsupported.append(f"{desc[:120]} @ {loc}")
                 else:
